@@ -130,7 +130,7 @@ func c03R2(c *Ctx) {
 		return
 	}
 	name := FuncName(stamper)
-	ins := p.Method(modPath, "session", "insertSendingTime")
+	ins := p.sendingTimeFn()
 	// PossDup
 	okDup := false
 	for _, st := range p.setTagCalls(stamper, t43) {
@@ -198,13 +198,14 @@ func c03R3(c *Ctx) {
 			continue
 		}
 		ao := p.Origin(cl.Common().Args[1])
-		if !ao.IsCallTo("(*Message).buildWithBodyBytes") && !ao.IsCallTo("(*Message).build") {
+		ffB, fbB := p.builders()
+		if !(ao.Kind == "call" && (ao.Callee == ffB || ao.Callee == fbB)) {
 			continue
 		}
 		n++
 		d := p.ReachCond(cl.Block())
 		notAdmin := d.Implies(func(a *Atom) bool {
-			return a.Rel == "" && !a.Val && a.B.IsCallTo("isAdminMessageType") && len(a.B.Args) == 1 && a.B.Args[0].IsCallTo("(FieldMap).GetBytes") && a.B.Args[0].ArgConstInt(0, p.Tag("tagMsgType"))
+			return a.Rel == "" && !a.Val && a.B.Kind == "call" && a.B.Callee == p.adminTypeFn() && len(a.B.Args) == 1 && a.B.Args[0].IsCallTo("(FieldMap).GetBytes") && a.B.Args[0].ArgConstInt(0, p.Tag("tagMsgType"))
 		})
 		agreed := d.Implies(func(a *Atom) bool {
 			return a.Rel == "" && a.Val && a.B.Kind == "call" && a.B.Callee != nil && p.reachesAny(a.B.Callee, func(f *ssa.Function) bool {
@@ -232,11 +233,12 @@ func c03R4(c *Ctx) {
 	n := 0
 	for _, cl := range Calls(cb) {
 		cal := cl.Common().StaticCallee()
-		if cal == nil || cal.Name() != "buildWithBodyBytes" {
-			if cal != nil && cal.Name() == "build" {
+		ffB, fbB := p.builders()
+		if cal == nil || cal != fbB {
+			if cal != nil && cal == ffB {
 				// a replay rebuilt with build() re-serialises the body from the field map (group order lost)
 				ro := p.Origin(cl.Common().Args[0])
-				if ro.Mentions(func(x *Org) bool { return x.IsCallTo("NewMessage") }) && !strings.Contains(FuncName(cl.Parent()), "generateSequenceReset") {
+				if ro.Mentions(func(x *Org) bool { return x.IsCallTo("NewMessage") }) && true {
 					c.Violation(name, p.InstrPos(cl), "replay-build", "a stored message is re-serialised with build(): repeating-group member order and the original body bytes are not preserved")
 				}
 			}
@@ -327,7 +329,7 @@ func c03R5(c *Ctx) {
 			c.Check(okG && okEnd, FuncName(cb), p.InstrPos(cl), "gapfill-before-resend", "skipped numbers gap-filled up to the MsgSeqNum of the message about to be re-sent", "gap fill inside the replay loop is unguarded or its NewSeqNo is "+endO.String()+" rather than the number of the message about to be re-sent")
 			// and it precedes the enqueue of that message
 			for _, c2 := range Calls(cb) {
-				if c3 := c2.Common().StaticCallee(); c3 != nil && c3.Name() == "buildWithBodyBytes" {
+				if c3 := c2.Common().StaticCallee(); c3 != nil && func() bool { _, fb := p.builders(); return c3 == fb }() {
 					c.Check(reaches(cl.Block(), c2.Block()) && !reaches(c2.Block(), cl.Block()), FuncName(cb), p.InstrPos(cl), "gapfill-order", "gap fill precedes the re-sent message", "the gap fill for skipped numbers is sent after the message that follows them")
 				}
 			}
